@@ -118,7 +118,7 @@ PROPS["C02"] = {
 PROPS["C16"] = {
     "driver": "c16", "trace_spec": "TraceSendHead",
     "mc_quick": [mc("MCSendHead", "MCSendHead.cfg")],
-    "require_classes": ["c16:added-on-redirected", "req:accepted"],
+    "require_classes": ["c16:added-on-redirected", "c16:despite", "req:accepted"],
     "rule": "one case = a flow at redirect depth 0..3 (both auth policies) whose original request carries cookie/authorization/content-length, with 0..58 caller-added headers "
             "drawn from cookie, authorization, content-length, host, connection, x-*; the head is written through buffer schedules and lexed; distinct = distinct (method, depth, count class, policy)",
     "assumptions": REQ_ASSUME,
@@ -165,4 +165,29 @@ PROPS["C11"] = {
     "rule": "one case = one interim/final server head (100 with 4 reason variants, refusals bare / with fields / with Connection: close) x the prefix length at which the caller stops looking (every length, cumulatively re-presented) "
             "x HTTP/1.0 / 1.1 x request framing, continued to Cleanup on whichever path the flow takes; distinct = distinct (message, variant, version, give-up point)",
     "assumptions": FLOW_ASSUME,
+}
+
+REDIR_MC_Q = [mc("MCRedirect", "MCRedirect_quick.cfg", workers=12)] + [
+    mc("MCRedirect", "MCRedirect_%s.cfg" % d, workers=4, expect_violation=inv)
+    for d, inv in (("ResolveAgainstOriginal", "Refines"), ("AuthAgainstPreviousHop", "Refines"), ("AuthHostOnly", "Refines"), ("Only301_302_303", "DeadEndsOk"))]
+REDIR_MC_T = [mc("MCRedirect", "MCRedirect_thorough.cfg", workers=16, timeout=3400, heap="16g")]
+REDIR_ASSUME = ["requests carry no explicit Host header; the reference grammar is the structured one of spec/Redirect.tla rendered to text by the harness",
+                "as_new_flow is called once per Redirect state"]
+PROPS["C13"] = {
+    "driver": "c13", "trace_spec": "TraceRedirect", "scripts": "redirect",
+    "mc_quick": REDIR_MC_Q, "mc_thorough": REDIR_MC_T,
+    "require_classes": ["hop:second-or-later", "hop:auth-kept", "hop:not-followed"],
+    "rule": "one case = one redirect chain of 1..4 hops (model edge-cover scripts; seeded random chains over absolute / scheme-relative / path-absolute / relative / query-only / empty "
+            "references with fragments and decoy Location fields; directed leave-and-return, scheme downgrade, port change chains), original request with Authorization, Cookie, Content-Length, "
+            "both policies; the head of every hop's request is written and lexed; distinct = distinct scripts / (method, hops, dead end)",
+    "assumptions": REDIR_ASSUME,
+}
+PROPS["C14"] = dict(PROPS["C13"], driver="c14", require_classes=["hop:second-or-later", "hop:bad-location", "hop:several-locations"])
+PROPS["C15"] = {
+    "driver": "c15", "trace_spec": "TraceRedirect",
+    "mc_quick": REDIR_MC_Q[:1] + REDIR_MC_Q[4:], "mc_thorough": REDIR_MC_T,
+    "require_classes": ["hop:not-followed", "hop:despite-method"], "require_kinds": ["hop", "landed"],
+    "rule": "one case = one flow: 9 methods x every status 300..399 x both auth policies x with/without response body (3600 flows, all of them in both tiers); "
+            "distinct = distinct (method, status)",
+    "assumptions": REDIR_ASSUME,
 }
